@@ -9,7 +9,7 @@ import (
 )
 
 // universes of paths, each listed in protocol (component-wise) order
-var diffUniverses = [][]string{
+var vh_diffUniverses = [][]string{
 	{"a", "a/b", "a-b"},
 	{"a", "a/b", "a/b/c"},
 	{"a", "a/b", "a-b", "b"},
@@ -18,7 +18,7 @@ var diffUniverses = [][]string{
 	{"a", "a/b", "a/c", "a-b", "a-b/c", "b"},
 }
 
-func listWalker(l []*currentPath) walkerFn {
+func vh_listWalker(l []*currentPath) walkerFn {
 	return func(ctx context.Context, pathC chan<- *currentPath) error {
 		for _, p := range l {
 			select {
@@ -31,25 +31,25 @@ func listWalker(l []*currentPath) walkerFn {
 	}
 }
 
-func isUnder(p, dir string) bool {
+func vh_isUnder(p, dir string) bool {
 	return len(p) > len(dir)+1 && p[:len(dir)] == dir && p[len(dir)] == '/'
 }
 
-func statIsDir(s *types.Stat) bool { return os.FileMode(s.Mode)&os.ModeDir != 0 }
+func vh_statIsDir(s *types.Stat) bool { return os.FileMode(s.Mode)&os.ModeDir != 0 }
 
 // symTree builds a parent-closed subset of the universe with symbolic stats.
-func symTree(tag string, u []string) []*currentPath {
+func vh_symTree(tag string, u []string) []*currentPath {
 	var out []*currentPath
 	for _, p := range u {
 		if !v.Bool(tag + ".has") {
 			continue
 		}
 		// parent must be present and a directory
-		par := specParent(p)
+		par := vh_specParent(p)
 		if par != "" {
 			ok := false
 			for _, e := range out {
-				if e.path == par && statIsDir(e.stat) {
+				if e.path == par && vh_statIsDir(e.stat) {
 					ok = true
 				}
 			}
@@ -64,12 +64,12 @@ func symTree(tag string, u []string) []*currentPath {
 	return out
 }
 
-type modelEntry struct {
+type vh_modelEntry struct {
 	path string
 	stat *types.Stat
 }
 
-type diffEvent struct {
+type vh_diffEvent struct {
 	kind ChangeKind
 	path string
 	stat *types.Stat
@@ -77,17 +77,17 @@ type diffEvent struct {
 
 // applyEvents is the reference semantics of a change stream: delete removes the path and its
 // subtree; add/modify sets the entry and, when a directory becomes a non-directory, drops the subtree.
-func applyEvents(old []*currentPath, evs []diffEvent) []modelEntry {
-	var m []modelEntry
+func vh_applyEvents(old []*currentPath, evs []vh_diffEvent) []vh_modelEntry {
+	var m []vh_modelEntry
 	for _, e := range old {
-		m = append(m, modelEntry{e.path, e.stat})
+		m = append(m, vh_modelEntry{e.path, e.stat})
 	}
 	for _, ev := range evs {
-		var next []modelEntry
+		var next []vh_modelEntry
 		switch ev.kind {
 		case ChangeKindDelete:
 			for _, e := range m {
-				if e.path != ev.path && !isUnder(e.path, ev.path) {
+				if e.path != ev.path && !vh_isUnder(e.path, ev.path) {
 					next = append(next, e)
 				}
 			}
@@ -95,17 +95,17 @@ func applyEvents(old []*currentPath, evs []diffEvent) []modelEntry {
 			placed := false
 			for _, e := range m {
 				if e.path == ev.path {
-					next = append(next, modelEntry{ev.path, ev.stat})
+					next = append(next, vh_modelEntry{ev.path, ev.stat})
 					placed = true
 					continue
 				}
-				if isUnder(e.path, ev.path) && !statIsDir(ev.stat) {
+				if vh_isUnder(e.path, ev.path) && !vh_statIsDir(ev.stat) {
 					continue
 				}
 				next = append(next, e)
 			}
 			if !placed {
-				next = append(next, modelEntry{ev.path, ev.stat})
+				next = append(next, vh_modelEntry{ev.path, ev.stat})
 			}
 		}
 		m = next
@@ -118,21 +118,21 @@ func applyEvents(old []*currentPath, evs []diffEvent) []modelEntry {
 // identity-equal stats); and a change is emitted for a path exactly when it is new, gone
 // (top-most, or below something already removed), or its identity differs (C02 minimality, C05(i)).
 func VH_C01_diff() {
-	u := diffUniverses[v.Param("U", 0)]
-	lower, upper := symTree("lo", u), symTree("up", u)
-	var evs []diffEvent
+	u := vh_diffUniverses[v.Param("U", 0)]
+	lower, upper := vh_symTree("lo", u), vh_symTree("up", u)
+	var evs []vh_diffEvent
 	changeFn := func(kind ChangeKind, p string, fi os.FileInfo, err error) error {
 		var st *types.Stat
 		if fi != nil {
 			st, _ = fi.Sys().(*types.Stat)
 		}
-		evs = append(evs, diffEvent{kind, p, st})
+		evs = append(evs, vh_diffEvent{kind, p, st})
 		return nil
 	}
-	err := doubleWalkDiff(context.Background(), changeFn, listWalker(lower), listWalker(upper), nil, DiffMetadata)
+	err := doubleWalkDiff(context.Background(), changeFn, vh_listWalker(lower), vh_listWalker(upper), nil, DiffMetadata)
 	v.Assert(err == nil, "doubleWalkDiff succeeds on list walkers")
 	v.Observe("events", len(evs))
-	res := applyEvents(lower, evs)
+	res := vh_applyEvents(lower, evs)
 	// same path set and identity
 	v.Assert(len(res) == len(upper), "apply(changes, lower) has exactly the paths of upper")
 	for _, want := range upper {
@@ -140,7 +140,7 @@ func VH_C01_diff() {
 		for _, got := range res {
 			if got.path == want.path {
 				found = true
-				v.Assert(specIdentity(got.stat, want.stat), "apply(changes, lower) carries the identity of upper for every path")
+				v.Assert(vh_specIdentity(got.stat, want.stat), "apply(changes, lower) carries the identity of upper for every path")
 			}
 		}
 		v.Assert(found, "every path of upper is present after applying the changes")
@@ -159,7 +159,7 @@ func VH_C01_diff() {
 			}
 		}
 		n := 0
-		var ev diffEvent
+		var ev vh_diffEvent
 		for _, e := range evs {
 			if e.path == p {
 				n++
@@ -179,14 +179,14 @@ func VH_C01_diff() {
 				// only allowed below a path that was itself deleted or replaced by a non-directory
 				covered := false
 				for _, e := range evs {
-					if isUnder(p, e.path) && (e.kind == ChangeKindDelete || !statIsDir(e.stat)) {
+					if vh_isUnder(p, e.path) && (e.kind == ChangeKindDelete || !vh_statIsDir(e.stat)) {
 						covered = true
 					}
 				}
 				v.Assert(covered, "a removed path without its own delete lies below a removed or replaced directory")
 			}
 		default:
-			if specIdentity(lo, up) {
+			if vh_specIdentity(lo, up) {
 				v.Cover("unchanged")
 				v.Assert(n == 0, "no event for a path whose identity is unchanged")
 			} else {
